@@ -186,6 +186,11 @@ fn run_one(v: &Value, cache: &mut std::collections::HashMap<String, Searcher>) -
     if cache.len() > 256 {
         cache.clear();
     }
+    // With binary detection the result legitimately depends on the roll buffer's current size,
+    // which an earlier search may have grown: start those from a fresh searcher.
+    if bin != "none" {
+        cache.remove(&key);
+    }
     let reused = cache.contains_key(&key);
     let searcher = cache.entry(key).or_insert_with(|| b.build());
     let mut sink = RecSink {
